@@ -1964,6 +1964,16 @@ class Interp:
                 return acc
             if name == "super":
                 return Unknown("super")
+            # a module-level function of the module the owner class lives in (`_locate_call(col, row)` in parser.py)
+            ci_ = self.py.classes.get(owner)
+            mod_ = self.py.modules.get(getattr(ci_, "module", None)) if ci_ is not None else None
+            fdef = mod_.functions.get(name) if mod_ is not None else None
+            if fdef is not None and not fdef.decorator_list and getattr(self, "_mf_depth", 0) < 4:
+                self._mf_depth = getattr(self, "_mf_depth", 0) + 1
+                try:
+                    return self.call_function(fdef, args, None, owner, kwargs)
+                finally:
+                    self._mf_depth -= 1
             return Unknown(f"call {name}()")
         if isinstance(f, ast.Attribute):
             # re.match(<const pattern>, <text>) : remembered so that .group() has a language
